@@ -230,10 +230,23 @@ def run_real(cfg, *, seed=1234, storage="mem", delays=None, event_dir=None, init
     tmp = None
     if storage == "memmap-temp":
         kw["force_memmap"] = True
-    elif storage == "memmap-dir":
+    elif storage in ("memmap-dir", "memmap-dir-reused"):
         tmp = tempfile.mkdtemp(prefix="mm_", dir=str(tlc.BUILD))
         kw["force_memmap"] = True
         kw["memmap_path"] = tmp
+        if storage == "memmap-dir-reused":
+            # the directory already holds the files of an earlier, complete call with the same layout (other
+            # generator seed, no interrupt): nothing of it may show in what this call returns
+            P.PLAN["interrupt"] = None
+            first = MarkovChainMonteCarloMethod(rng=make_rng(bitgen, seed + 77), transitions=transitions)
+            with warnings.catch_warnings():
+                warnings.simplefilter("ignore")
+                first.sample_chains(0, cfg["nrows"], [ChainState(x=np.array([c, 0.0, np.nan, 0.0, 0.0])) for c in range(1, cfg["nchain"] + 1)],
+                                    trace_funcs=[P.decoy_trace, P.probe_trace], adapters={"probe": []}, stager=P.FixedStager(layout),
+                                    n_process=1, trace_warm_up=False, display_progress=False, **kw)
+            P.PLAN["interrupt"] = cfg["intr"] if cfg["intr"]["stage"] else None
+            P._FIRED[0] = False
+            transitions["probe"].pfast, transitions["probe"].pslow = P.USER, P.USER
     obs = {"exception": None}
     import contextlib
     import io
